@@ -579,3 +579,12 @@ func RaceBody(seed int64) int {
 	}
 	return 0
 }
+
+// ReplayRacePass re-runs the sampled race pass and returns the classes of the reports it saw.
+func ReplayRacePass(runs int) (classes []string, ran int, note string) {
+	races, ran, note := c19RacePass(runs, 1)
+	for _, r := range races {
+		classes = append(classes, "data-race:"+r.class)
+	}
+	return classes, ran, note
+}
